@@ -442,6 +442,28 @@ def sample(ctx, budget=1.0, hint=None, broken=None):
         d0 = _spell(r, prog, 'plain')
         n_eval += 1
         nontriv.add((cls, style, tuple(sorted(set((l or 'i').upper() for l, _ in prog)))))
+        edited_first = False
+        if r.random() < 0.3:
+            # the very first parse of this text is handed to a caller who edits it in place (its own object); every later parse of the
+            # same text must still mean what the text says
+            try:
+                with warnings.catch_warnings():
+                    warnings.simplefilter('ignore')
+                    mine = spt.parse_path(d)
+                    for sg_ in mine:
+                        if isinstance(sg_, spt.Arc):
+                            continue
+                        sg_.start = sg_.start + (3 - 2j)
+                        sg_.end = sg_.end * 2 + 1j
+                        for nm_ in ('control', 'control1', 'control2'):
+                            if hasattr(sg_, nm_):
+                                setattr(sg_, nm_, getattr(sg_, nm_) - (5 + 5j))
+                    if len(mine):
+                        mine.append(spt.Line(mine[-1].end, mine[-1].end + 1))
+                edited_first = True
+                nontriv.add(('parsed again after the first result was edited', cls))
+            except Exception:
+                pass
         try:
             res, want, got = cmp(d)
         except Exception:
@@ -454,8 +476,11 @@ def sample(ctx, budget=1.0, hint=None, broken=None):
                 sig = 'parse_path/smooth-after-closepath-TypeError'
             elif res == 'raise AssertionError':
                 sig = 'parse_path/arc-with-end-equal-to-current-point'
-            fail(sig, 'parse_path(d) disagrees with the SVG reference interpreter', {'d': d, 'style': style}, repr(got)[:300] if got else res,
-                 repr(want)[:300], 'svgpathtools.parse_path(%r)' % d)
+            fail(sig + ('/after an earlier result was edited' if edited_first else ''), 'parse_path(d) disagrees with the SVG reference interpreter'
+                 + (' (the same text was parsed before and that result edited in place by its owner)' if edited_first else ''), {'d': d, 'style': style},
+                 repr(got)[:300] if got else res, repr(want)[:300],
+                 ('svgpathtools.parse_path(%r)' % d) if not edited_first else
+                 '(lambda p: ([(setattr(s, "start", s.start + (3-2j)), setattr(s, "end", s.end * 2 + 1j)) for s in p if not isinstance(s, svgpathtools.Arc)], svgpathtools.parse_path(%r))[-1])(svgpathtools.parse_path(%r))' % (d, d))
         else:
             # lexically different spellings of the same program parse to equal paths
             try:
